@@ -921,7 +921,18 @@ class RecurrencePlot(Cached):
                 "Sequential RQA is currently only available for "
                 "fixed threshold and the supremum metric.")
 
-        #  Function just runs over the upper triangular matrix
+        #  Function just runs over the lower triangular matrix
+        if not self.sparse_rqa and not (recmat == recmat.T).all():
+            #  asymmetric R (fixed local recurrence rate): count the upper
+            #  triangle separately
+            upper = np.zeros(n_time, dtype=NODE)
+            recmat_t = np.ascontiguousarray(recmat.T)
+            if self.missing_values:
+                _diagline_dist_missingvalues(
+                    n_time, upper, recmat_t, mv_indices)
+            else:
+                _diagline_dist(n_time, upper, recmat_t)
+            return diagline + upper
         return 2 * diagline
 
     @staticmethod
